@@ -21,7 +21,7 @@ def step_harnesses(cap, tier, real=False):
         e1.H("h_delete", "step/delete/" + k, unwind=U, unwindset=one, defines=d, timeout=to),
         e1.H("h_put", "step/put/" + k, unwind=U, unwindset=one, defines=d, timeout=to,
              replace_calls=("rehash:stub_rehash_never",)),
-        e1.H("h_put_trigger", "step/put-at-trigger/" + k, unwind=U, unwindset=two, defines=d, timeout=to,
+        e1.H("h_put_trigger", "step/put-at-trigger/" + k, unwind=U, unwindset=one, defines=d, timeout=to,
              replace_calls=("rehash:stub_rehash_contract",), native=False),
         e1.H("h_rehash_modular", "rehash/modular/" + k, unwind=U, unwindset=two, defines=d, timeout=to,
              replace_calls=("hashmap_put2:stub_put_contract",), native=False),
@@ -62,12 +62,15 @@ def main(tier, only=None):
         "hashmap_put/get/delete strlen wrappers; hashmap_test",
     ]
     for cap in caps:
-        if only and not any(o in ("step", "rehash", "cap%d" % cap) for o in only):
-            continue
         hs = step_harnesses(cap, tier, real=(tier == "thorough" and cap == 4))
         if only:
-            hs = [h for h in hs if any(h.key.startswith(o) or o == "cap%d" % cap for o in only)]
+            hs = [h for h in hs if any(h.key.startswith(o) or o in h.key.split("/") for o in only)]
+        if not hs:
+            continue
         e1.run_set(chk, "c17/step.c", hs, workers=int(os.environ.get("VERIF_WORKERS", "8")))
+    if os.environ.get("VERIF_VERBOSE"):
+        for o in chk.obl:
+            print("  %-40s %-12s %6.1fs  %s" % (o["key"], o["status"], o["secs"], o["detail"][:100]))
     return chk.finish()
 
 
